@@ -133,6 +133,25 @@ SortedByIndex(s) == \A i \in 1 .. Len(s) - 1 :
                        \/ s[i].idx < s[i + 1].idx
                        \/ (s[i].idx = s[i + 1].idx /\ s[i].time <= s[i + 1].time)
 
+(* MODEL - mputil.Group (internal/mputil/mputil.go:128-176), the consumer  *)
+(* of LineStringAt when the members of a multipolygon are grouped.  A       *)
+(* member is [tgt, role, ori]: tgt "way" = the way of the case (the same    *)
+(* way may be listed several times), "gone" = a way that is not available,  *)
+(* "node" = a node member; role "outer" / "inner" / other; ori = the        *)
+(* annotated orientation 1 (CCW) / -1 (CW) / 0.                             *)
+Rev(s) == [i \in 1 .. Len(s) |-> s[Len(s) + 1 - i]]
+MemberChoices == [tgt : {"way", "gone", "node"}, role : {"outer", "inner", "via"}, ori : {-1, 0, 1}]
+GroupRev(m) == (m.role = "outer" /\ m.ori = -1) \/ (m.role = "inner" /\ m.ori = 1)
+\* the segments of one role, in member order; every occurrence gets its own line
+GroupSegs(c, us, t, ms, role, brk) ==
+  LET line == LsAt(c, us, t, brk)
+      Keep(i) == ms[i].tgt = "way" /\ ms[i].role = role /\ Len(line) > 0
+      ix == SelectSeq([i \in 1 .. Len(ms) |-> i], Keep) IN
+  [j \in 1 .. Len(ix) |-> [idx |-> ix[j] - 1, ori |-> ms[ix[j]].ori, rev |-> GroupRev(ms[ix[j]]),
+                            line |-> IF GroupRev(ms[ix[j]]) THEN Rev(line) ELSE line]]
+GroupTainted(c, us, t, ms, brk) ==
+  \E i \in 1 .. Len(ms) : ms[i].tgt = "gone" \/ (ms[i].tgt = "way" /\ Len(LsAt(c, us, t, brk)) # Len(c))
+
 -----------------------------------------------------------------------------
 (* JUDGE - the property as stated, over (element, stored list, t) and the  *)
 (* observed result r = [err, erridx, children, pending] of one call.       *)
@@ -192,6 +211,17 @@ ComposeJ(c, us, t1, t2, r12, r2) ==
 \*  lsApplied = LineString() of the copy after ApplyUpdatesUpTo(t).  Silent when the application fails.
 GeomHyp(kind, c, us, t) == kind = "way" /\ FullyAnnotated(c) /\ InRange(c, us, t)
 GeomJ(kind, c, us, t, lsAt, lsApplied) == GeomHyp(kind, c, us, t) => lsAt = lsApplied
+
+\* The same law where the geometry-at-time query is consumed (the property's anchor "consumer of LineStringAt
+\* when grouping multipolygon members"): every segment handed out for a member that is the way carries the
+\* geometry of the applied copy, turned around exactly when the segment is flagged as reversed - for every
+\* occurrence of the way in the member list.  segs = all observed segments [idx, ori, rev, line].
+GroupJ(c, us, t, ms, segs, lsApplied) ==
+  GeomHyp("way", c, us, t) =>
+    \A j \in 1 .. Len(segs) :
+       /\ segs[j].idx \in 0 .. Len(ms) - 1
+       /\ ms[segs[j].idx + 1].tgt = "way"
+       /\ segs[j].line = IF segs[j].rev THEN Rev(lsApplied) ELSE lsApplied
 
 \* Known finding #9 (way.go:174): the geometry query stops at the first too-late update.  The failure
 \* class: an applicable update is stored after a too-late one, and the observed geometry is exactly what
@@ -293,4 +323,11 @@ CasesExact(k, n, l, T, un, Own(_)) ==
 CasesExactOwn(k, n, l, T, un) ==
   {Case(k, ChildrenOf(k, n, un), MkList(f), p, T, o) :
       f \in [1 .. l -> Choice(k, n, T)], p \in Pairs(T), o \in OwnChoices(T)}
+\* kind "group": a way, the time t1 (= t2) and a member list for mputil.Group
+GroupCase(n, l, T, un, f, t, ms, o) ==
+  [kind |-> "group", children |-> ChildrenOf("way", n, un), updates |-> MkList(f), t1 |-> t, t2 |-> t, tmax |-> T,
+   ts |-> o.ts, com |-> o.com, members |-> ms]
+\* every list of exactly l updates, every t, every list of exactly m members drawn from MS
+GroupCasesExact(n, l, T, m, MS, Own(_)) ==
+  {GroupCase(n, l, T, 0, f, t, ms, Own(T)) : f \in [1 .. l -> Choice("way", n, T)], t \in 0 .. T, ms \in [1 .. m -> MS]}
 =============================================================================
